@@ -109,8 +109,15 @@ def obs_spectrum(x, s):
     ref = np.linalg.svd(d, compute_uv=False)
     got = np.concatenate([np.asarray(b, dtype=float) for b in s.blocks.values()]) if s.blocks else np.zeros(0)
     thr = 100 * tol * (1 + sc)
-    return {"t": "obs", "nonzero_svals_equal_dense": _multiset_close(got[got > thr], ref[ref > thr], thr),
-            "norm_equals_dense": abs(_norm(x) - float(np.linalg.norm(d))) <= tol * (1 + sc)}
+    o = {"t": "obs", "nonzero_svals_equal_dense": _multiset_close(got[got > thr], ref[ref > thr], thr),
+         "norm_equals_dense": abs(_norm(x) - float(np.linalg.norm(d))) <= tol * (1 + sc)}
+    if str(x.dtype) in ("float64", "complex128"):
+        # double precision: LAPACK returns every singular value with an ABSOLUTE error of a few ulps of the largest
+        # one, whether the blocks or the dense form are decomposed - small values included
+        smax = float(ref[0]) if ref.size else 0.0
+        thr2, tol2 = 1e-10 * (1 + smax), 1e-12 * (1 + smax)
+        o["svals_equal_dense_tight"] = _multiset_close(got[got > thr2], ref[ref > thr2], tol2)
+    return o
 
 
 def obs_eigvals(a, w):
